@@ -24,7 +24,16 @@ type c18kcfg struct {
 	Backend c18kbackend `dials:"Backend"`
 	// a set: the file chain presents it to the decoder as a list
 	Allowed map[string]struct{} `dials:"Allowed" dialsalias:"Whitelist"`
+	// an aliased list of sections
+	Backends []c18kpeer `dials:"Backends" dialsalias:"Servers"`
 }
+
+type c18kpeer struct {
+	Addr string `dials:"Addr"`
+}
+
+// c18klist stands for a list of n sections in the file (each with addr = "file-peer")
+type c18klist struct{ n int }
 
 type c18kbackend struct {
 	Port int16
@@ -47,6 +56,24 @@ func (d *c18keydec) Decode(r io.Reader, t *dials.Type) (reflect.Value, error) {
 			continue
 		}
 		f := out.Field(i)
+		if l, isList := v.(c18klist); isList {
+			sl := reflect.MakeSlice(f.Type(), l.n, l.n)
+			for j := 0; j < l.n; j++ {
+				el := sl.Index(j)
+				if el.Kind() == reflect.Ptr {
+					el.Set(reflect.New(el.Type().Elem()))
+					el = el.Elem()
+				}
+				a := "file-peer"
+				if el.Field(0).Kind() == reflect.Ptr {
+					el.Field(0).Set(reflect.ValueOf(&a))
+				} else {
+					el.Field(0).SetString(a)
+				}
+			}
+			f.Set(sl)
+			continue
+		}
 		if f.Kind() == reflect.Slice {
 			f.Set(reflect.ValueOf(v).Convert(f.Type()))
 			continue
@@ -67,14 +94,26 @@ func HarnessC18FileKeys() {
 	zzverif.Setenv("BACKEND_PORT", "77")
 	path := zzverif.TempFile("{}")
 	// how the file names each aliased leaf: 0 not at all, 1 primary, 2 alias, 3 both
+	kv := map[string]interface{}{"log_level": "file-level"}
 	pAddr := zzverif.Choose("addr", 4)
 	pConns := zzverif.Choose("conns", 4)
 	envConns := zzverif.Choose("envconns", 2) == 1
 	// the set leaf: 0 not in the file; 1 primary key with one member; 2 alias key with the
 	// explicitly empty list; 3 primary key with the empty list and alias key with a member
 	pAllowed := zzverif.Choose("allowed", 4)
+	// the list of sections: 0 not in the file; 1 primary key, one section; 2 alias key with the
+	// explicitly empty list; 3 primary key with one section and alias key with the empty list
+	pBackends := zzverif.Choose("backends", 4)
+	switch pBackends {
+	case 1:
+		kv["backends"] = c18klist{1}
+	case 2:
+		kv["servers"] = c18klist{0}
+	case 3:
+		kv["backends"] = c18klist{1}
+		kv["servers"] = c18klist{0}
+	}
 	conns := zzverif.Int8("conns_v")
-	kv := map[string]interface{}{"log_level": "file-level"}
 	if pAddr&1 != 0 {
 		kv["listen_addr"] = "file-addr"
 	}
@@ -99,7 +138,7 @@ func HarnessC18FileKeys() {
 		kv["allowed"] = []string{}
 		kv["whitelist"] = []string{"b"}
 	}
-	def := c18kcfg{Cfg: path, ListenAddr: "default-addr", MaxConns: 1, LogLevel: "default-level", Allowed: map[string]struct{}{"d": {}}}
+	def := c18kcfg{Cfg: path, ListenAddr: "default-addr", MaxConns: 1, LogLevel: "default-level", Allowed: map[string]struct{}{"d": {}}, Backends: []c18kpeer{{Addr: "default-peer"}}}
 	tmpl := def
 	flagSrc, flagErr := dflag.NewSetWithArgs(dflag.DefaultFlagNameConfig(), &tmpl, nil)
 	if flagErr != nil {
@@ -115,7 +154,7 @@ func HarnessC18FileKeys() {
 	defer cancel()
 	dec := &c18keydec{kv: kv}
 	d, err := ConfigFileEnvFlagDecoderFactoryParams(ctx, &def, func(p string, _ Params[c18kcfg]) dials.Decoder { return dec }, params)
-	both := pAddr == 3 || pConns == 3 || pAllowed == 3
+	both := pAddr == 3 || pConns == 3 || pAllowed == 3 || pBackends == 3
 	if err != nil {
 		zzverif.Assert(both, "C18 the ez entry point failed although the file names no leaf under both its names")
 		zzverif.Reached("c18-keys-both-error")
@@ -147,6 +186,14 @@ func HarnessC18FileKeys() {
 		zzverif.Assert(len(got.Allowed) == 1 && hasA, "C18 the file layer is missing for a set leaf the file names")
 	case 2:
 		zzverif.Assert(len(got.Allowed) == 0, "C18 an explicitly empty list in the file did not override the default set (the file layer is missing for that leaf)")
+	}
+	switch pBackends {
+	case 0:
+		zzverif.Assert(len(got.Backends) == 1 && got.Backends[0].Addr == "default-peer", "C18 a list of sections the file does not name lost its default")
+	case 1:
+		zzverif.Assert(len(got.Backends) == 1 && got.Backends[0].Addr == "file-peer", "C18 the file layer is missing for a list of sections the file names")
+	case 2:
+		zzverif.Assert(len(got.Backends) == 0, "C18 an explicitly empty list of sections in the file (under the alias name) did not override the default (the file layer is missing for that leaf)")
 	}
 	zzverif.Reached("c18-keys-end")
 }
